@@ -72,7 +72,7 @@ def removeExtTop : List CT → List CT
 
 /-- `asn1constraint_pullup`: the elements of `expr->combined_constraints` -/
 def combinedEls : Cons → List CT
-  | .refine a b => removeExtList (combinedEls a) ++ levelEls b
+  | .refine a b => removeExtList (combinedEls a) ++ removeExtTop (levelEls b)
   | c => removeExtTop (levelEls c)
 
 def combined (c : Cons) : CT := .set (combinedEls c)
